@@ -516,7 +516,11 @@ func randomCase(r *rand.Rand) (string, M, corr, []tok, []string) {
 			}
 			t = append(t, labChars(n, k, hy)...)
 		}
-		inst := M{"labels": labels}
+		abs := r.Intn(3) == 0 // the absolute form: trailing dot
+		if abs {
+			t = append(t, ".")
+		}
+		inst := M{"labels": labels, "abs": abs}
 		c := corr{"none", 0}
 		switch r.Intn(5) {
 		case 0:
